@@ -141,6 +141,7 @@ def nf_roots(n, out=None):
     return out
 
 
+_GARGS = {}        # (callee path, argument normal forms) -> the types its generic parameters were given at that call
 _CLOSURES = {}     # id of a closure's syntax node -> (node, environment at its definition); the nodes live as long as the facts do
 
 
@@ -749,6 +750,10 @@ class NF:
             targs = tuple(g for g in (f.get("gargs") or []) if g in NUMERIC_TYPES)
             if targs and len(targs) == len(f.get("gargs") or []):
                 return ("call", path, args, ("targs", targs))   # explicit numeric type arguments (`parse_facet::<i32>(..)`)
+            ga = tuple(g for g in (f.get("gargs") or []) if not str(g).startswith("'"))
+            if ga and hasattr(self.F, "lib") and self.F.lib.body(path) is not None and not any(re.fullmatch(r"[A-Z]\w{0,2}", str(g)) for g in ga):
+                _GARGS[(path, args)] = ga       # what the generic parameters of a function of the crate stand for at this call
+                _GARGS.setdefault(("*", path), set()).add(tuple(re.sub(r"&'\w+ ", "&", str(g)) for g in ga))
             return ("call", path, args)
         if k == "Struct":
             return ("call", "struct:" + (e["path"].get("path") or "?"),
@@ -2463,6 +2468,26 @@ def nf_simplify(n):
             b_ = nf_simplify(("match", sc[3], n[2]))
             if a_[0] != "match" and b_[0] != "match":
                 return ("ifelse", sc[1], a_, b_)
+    if n and n[0] == "joinmap" and isinstance(n[1], tuple) and n[1][0] == "tuple" and isinstance(n[3], str) and 1 <= len(n[1][1]) <= 8:
+        # a join over an array literal: the texts of its elements, one after the other with the separator in between
+        parts = []
+        for i_, item in enumerate(n[1][1]):
+            if i_:
+                parts.append(("lit", n[3]))
+            body = nf_simplify(nf_replace(n[2], ("elem", n[1]), item))
+            if isinstance(body, tuple) and body[0] == "format":
+                parts += list(body[1])
+            elif isinstance(body, tuple) and body[0] == "lit" and isinstance(body[1], str):
+                parts.append(body)
+            else:
+                parts.append(("hole", body, "display", "?"))
+        merged = []
+        for q in parts:
+            if q[0] == "lit" and merged and merged[-1][0] == "lit":
+                merged[-1] = ("lit", merged[-1][1] + q[1])
+            else:
+                merged.append(q)
+        return ("format", tuple(merged))
     if n and n[0] == "map" and len(n) == 3 and isinstance(n[2], tuple) and n[2][0] == "payload" and n[2][2] == n[1]:
         return n[1]            # `opt.map(|x| x)` (after identity steps: `.map(Rc::clone)`, `.map(ToOwned::to_owned)`)
     if n and n[0] == "ifelse" and isinstance(n[1], tuple) and n[1][0] == "binop" and n[1][1] in ("Eq", "Ne"):
@@ -2792,6 +2817,18 @@ def spine(nf):
     return out, cur
 
 
+def _subst_hole_types(n, tymap):
+    """the types of the holes of the templates inside a normal form, with generic parameters replaced by what they stand for"""
+    if not isinstance(n, tuple):
+        return n
+    if n and n[0] == "hole" and len(n) > 3 and isinstance(n[3], str):
+        ty = n[3]
+        for g, t in tymap.items():
+            ty = re.sub(r"\b" + re.escape(g) + r"\b", t, ty)
+        return (n[0], _subst_hole_types(n[1], tymap), n[2], ty) + tuple(n[4:])
+    return tuple(_subst_hole_types(x, tymap) if isinstance(x, tuple) else x for x in n)
+
+
 def apply_closure_value(N, clo_nf, arg_nfs):
     """the body of a closure value ("closure", id[, what it captured of its maker's parameters]) with its parameters bound"""
     node, cenv = _CLOSURES[clo_nf[1]]
@@ -3073,7 +3110,23 @@ class CallExpander:
                             mapping[nj] = nf_simplify(project(a, j, len(nm))) if isinstance(a, tuple) else ("unknown", "tuple parameter")
                     elif nm is not None:
                         mapping[nm] = a
-                return self.expand(nf_subst(s[1], mapping), depth + 1)
+                body = nf_subst(s[1], mapping)
+                ga = _GARGS.get((n[1], tuple(n[2])))
+                if not ga:
+                    # (the arguments were rewritten on the way here: when every call of the function gives its parameters the same
+                    # hole-relevant types, those are the types)
+                    alls = _GARGS.get(("*", n[1])) or set()
+                    if alls:
+                        cols = list(zip(*alls))
+                        strish = lambda t: t.replace("&", "").replace("mut ", "").strip() in ("str", "std::string::String", "alloc::string::String")
+                        ga = tuple(c[0] if len(set(c)) == 1 else ("&str" if all(strish(x) for x in c) else "?") for c in cols)
+                if ga:
+                    if not hasattr(self, "_generics"):
+                        self._generics = {f["path"]: [g for g in (f.get("generics") or []) if not g.startswith("'")] for f in self.F.lib.items.get("fns", [])}
+                    gn = self._generics.get(n[1]) or []
+                    if len(gn) == len(ga):
+                        body = _subst_hole_types(body, dict(zip(gn, ga)))
+                return self.expand(body, depth + 1)
             return ("call", n[1], args)
         if n[0] == "apply":
             f = self.expand(n[1], depth)
